@@ -84,7 +84,7 @@ def split_reference(s):
         i += 1
 
 
-def craft_message(edition, n_subsets, compressed, text, category=0):
+def craft_message(edition, n_subsets, compressed, text, category=0, dnp=False):
     """A message whose payload is a 160-bit character element (001015) holding
     `text` — used to put b'BUFR' and b'7777' inside message bodies."""
     from pybufrkit.encoder import Encoder
@@ -93,8 +93,13 @@ def craft_message(edition, n_subsets, compressed, text, category=0):
         sec1 = [0, 0, 0, 0, 0, False, "0000000", category, 0, 0, 33, 0, 2020, 1, 1, 0, 0, 0]
     else:
         sec1 = [0, 0, 0, 0, 0, False, "0000000", category, 0, 33, 0, 20, 1, 1, 0, 0, 0]
-    sec3 = [0, "00000000", n_subsets, True, compressed, "000000", [1015, 12001]]
-    sec4 = [0, "00000000", [[text, 270.5 + i] for i in range(n_subsets)]]
+    if dnp:
+        # a 221YYY "data not present" span: 012001 and 010004 carry no data, 001001 (class 1) does
+        sec3 = [0, "00000000", n_subsets, True, compressed, "000000", [1015, 221003, 12001, 10004, 1001, 2001]]
+        sec4 = [0, "00000000", [[text, 11 + i, 1] for i in range(n_subsets)]]
+    else:
+        sec3 = [0, "00000000", n_subsets, True, compressed, "000000", [1015, 12001]]
+        sec4 = [0, "00000000", [[text, 270.5 + i] for i in range(n_subsets)]]
     msg = json.loads(json.dumps([sec0, sec1, sec3, sec4, ["7777"]]))
     with quiet():
         return bytes(Encoder().process(json.dumps(msg)).serialized_bytes)
@@ -167,6 +172,13 @@ def build_pool(ctx, max_len=None):
                     raise RuntimeError('crafted message does not decode standalone')
                 d['crafted'] = True
                 pool.append(d)
+    for ed, comp, ns in ((4, False, 1), (3, False, 2), (4, True, 2)):
+        b = craft_message(ed, ns, comp, 'data not present', dnp=True)
+        d = describe(b, 'crafted-dnp-ed%d-%s-n%d' % (ed, 'c' if comp else 'u', ns))
+        if d is None:
+            raise RuntimeError('crafted 221 message does not decode standalone')
+        d['crafted'] = True
+        pool.append(d)
     _POOL_CACHE[key] = (pool, files)
     return pool, files
 
